@@ -53,7 +53,7 @@ func gen(a hx.Args) {
 	// subscription-only balancers (range with rack variants, round robin, kfake range)
 	for n := 1; n <= 3; n++ {
 		for k := 1; k <= 2; k++ {
-			if !thorough && n == 3 && k == 2 {
+			if !thorough && (n == 3 && k == 2 || n == 1) {
 				continue
 			}
 			bal.Exhaustive(n, k, 3, [][]int32{eq(n, 0)}, false, func(ms []bal.Mem, ts []bal.Topic) {
@@ -80,7 +80,7 @@ func gen(a hx.Args) {
 		return gs
 	}
 	type scope struct{ n, k, p int }
-	scopes := []scope{{1, 1, 3}, {2, 1, 2}, {1, 2, 1}}
+	scopes := []scope{{2, 1, 2}, {2, 1, 3}}
 	if thorough {
 		scopes = []scope{{1, 1, 3}, {2, 1, 3}, {3, 1, 3}, {1, 2, 2}, {2, 2, 2}, {3, 2, 1}}
 	}
@@ -99,6 +99,9 @@ func gen(a hx.Args) {
 			sh = bal.Shape{MaxMembers: 14, MaxTopics: 8, MaxParts: 16}
 		}
 		ms, ts := bal.Random(r, sh)
+		for len(ms) < 2 && !r.Chance(10) { // single-member groups are trivial: keep only a few
+			ms, ts = bal.Random(r, sh)
+		}
 		emitAll(r, ms, ts, "roscKU")
 	}
 	// --- large groups
